@@ -16,7 +16,7 @@ claims = {
        "postcondition - and that the catalog's collections exist) is an obligation discharged by SMT. Scope: scanning and the handlers; the MACRO/PASTE expansion walk, "
        "user-type compilation, path-variable assembly, the catalog setters' bodies (verified for their postconditions only) and serialisation are trusted or not under "
        "contract (listed per run in the evidence). Termination is not proved except the PASTE depth bound.",
-  note=TB + " Defects found by these obligations and repaired: D1/D2 (nil directive), D3 (INCLUDE \"\"), D5 (/*/), D19 (error in an empty included file).",
+  note=TB + " Defects found by these obligations and repaired: D1/D2 (nil directive), D3 (INCLUDE \"\"), D5 (/*/), D19 (error in an empty included file). Found by the bounded corpus oracle: D26 (a panic of the dependency's enum scanner, contrary to its assumed contract). Outside the contract scope (user-type compilation is trusted), reported by a seeding agent and repaired: D33 (any ENUM plus a type used before its declaration: nil-pointer panic).",
   ref="§6 C01"),
  "C07": dict(
   text="Proof, per construction site, that an error names the file/index it is located at: jerr.NewJApiError/NewLocation/OccurredInFile are verified "
